@@ -729,7 +729,7 @@ def _impl_x(case):
             try:
                 counts.append(str(a.network_count))
             except Exception as e:
-                counts.append(_err(e))
+                counts.append(_err_rec(e))
             if hash(a) != a.get_unique_identifier():
                 counts[-1] += "~hash-is-not-the-unique-identifier"
 
@@ -751,6 +751,21 @@ def _impl_x(case):
                          ",".join("".join(_tf(hash(a) == hash(b)) for b in every) for a in A),
                          ",".join("".join(hceq(a, b) for b in every) for a in A)])
     raise AssertionError(kind)
+
+
+def _err_rec(e):
+    """exception class of a group expansion.  In a reference CYCLE the recursion limit is hit at a depth that depends on how
+    deep the caller's own stack is; when that happens inside ConfigList.__getattribute__ (which catches BaseException and
+    retries through ccp_ref) the RecursionError resurfaces as an AttributeError.  Both are 'the recursion limit was
+    reached' -- the class is canonicalised so that the answer does not depend on the stack depth of the harness."""
+    seen = 0
+    x = e
+    while x is not None and seen < 50:
+        if isinstance(x, RecursionError):
+            return "err:RecursionError"
+        x = x.__context__ or x.__cause__
+        seen += 1
+    return _err(e)
 
 
 def impl(case):
@@ -784,7 +799,7 @@ def impl(case):
             try:
                 res = "ok " + wire.enc_strs(obj.network_strings)
             except Exception as e:
-                res = _err(e)
+                res = _err_rec(e)
             objs.append(f"{obj.linenum}/{wire.enc_str(obj.name)}/{res}")
             # .networks twice: the second call is answered from ConfigList._network_cache
             try:
@@ -792,7 +807,7 @@ def impl(case):
                 second = [f"{n.ip}/{n.prefixlen}" for n in obj.networks]
                 nets.append(",".join(first) + ("" if first == second else "~DIFFERS-ON-SECOND-CALL"))
             except Exception as e:
-                nets.append(_err(e))
+                nets.append(_err_rec(e))
     parts.append(";".join(objs))
     return "|".join(parts) + "#" + ";".join(nets)
 
